@@ -161,7 +161,10 @@ class Recorder:
     def recv(self, chunk: bytes) -> str:
         rnd = self.rnd
         buf = bytearray(chunk)
-        arg: t.Any = buf if rnd.random() < 0.6 else bytes(buf) if rnd.random() < 0.5 else memoryview(buf)
+        u_arg = rnd.random()
+        # what a caller may hand over: its bytearray, bytes, a memoryview of it - also one with a signed item format
+        # (array('b'), ctypes buffers)
+        arg: t.Any = buf if u_arg < 0.55 else bytes(buf) if u_arg < 0.72 else memoryview(buf) if u_arg < 0.9 else memoryview(buf).cast("b")
         e: t.Dict[str, t.Any] = {"ev": "recv", "chunk": L(chunk), "res": "ok", "msgs": [], "resp": []}
         got: t.List[t.Any] = []
         try:
@@ -214,10 +217,49 @@ def small_unit(kind: str, mid: int, rnd: random.Random, limit: int = 3000) -> t.
     return u
 
 
+def _hdr(b: bytes, p: int) -> t.Tuple[int, int]:
+    """(header length, content length) of the short-tag definite-length TLV at p."""
+    l0 = b[p + 1]
+    if l0 < 0x80:
+        return 2, l0
+    k = l0 & 0x7F
+    return 2 + k, int.from_bytes(b[p + 2:p + 2 + k], "big")
+
+
+def _tlv_(tag: int, content: bytes) -> bytes:
+    n = len(content)
+    if n < 128:
+        return bytes([tag, n]) + content
+    k = (n.bit_length() + 7) // 8
+    return bytes([tag, 0x80 | k]) + n.to_bytes(k, "big") + content
+
+
+def with_trailer(b: bytes, rnd: random.Random) -> bytes:
+    """The same LDAPMessage with an element the receiver does not know appended as the LAST component of the envelope or
+    of the protocolOp SEQUENCE (RFC 4511 section 4: such elements are ignored)."""
+    if b[0] != 0x30 or b[0] & 0x1F == 0x1F:
+        return b
+    hl, _ = _hdr(b, 0)
+    body = b[hl:]
+    idh, idl = _hdr(body, 0)
+    op_at = idh + idl
+    if op_at >= len(body) or body[op_at] & 0x1F == 0x1F:
+        return b
+    oph, opl = _hdr(body, op_at)
+    trailer = rnd.choice((b"\x85\x01x", b"\xa5\x00", b"\xdf\x87\x68\x00", b"\xa5\x04\x85\x02ab"))
+    constructed = bool(body[op_at] & 0x20)
+    if constructed and rnd.random() < 0.5:   # inside the operation (not for the primitive unbind / present-filter style ops)
+        op = _tlv_(body[op_at], body[op_at + oph:op_at + oph + opl] + trailer)
+        return _tlv_(0x30, body[:op_at] + op + body[op_at + oph + opl:])
+    return _tlv_(0x30, body + trailer)
+
+
 def unit_of(msg: t.Any, rnd: random.Random, alt: bool = True) -> t.Tuple[bytes, t.Dict[str, t.Any]]:
     import sansldap._messages as M
 
     b = msg.pack(M.PackingOptions())
+    if alt and rnd.random() < 0.12:
+        b = with_trailer(b, rnd)
     if alt and rnd.random() < 0.25:
         b = relen(b, rnd)
     return b, {"k": proj.kind_of(msg), "id": msg.message_id, "valid": True, "dig": dig(msg)}
